@@ -153,3 +153,56 @@ Proof.
   - apply existsb_eqb_In in E. exact (masked_support_legal_lemma l legal k xk Hk Hxk Hlow r E).
   - injection Hr as <-. lra.
 Qed.
+
+(* ------------------------------------------------------------------ numeric masks, batches, all agents *)
+Lemma legal_of_num_spec m : legal_of_num m = true <-> m == 1.
+Proof.
+  unfold legal_of_num. rewrite Qeq_bool_iff. split; intro H; lra.
+Qed.
+
+(* on 0/1 masks (of any numeric type) the inverted mask is exactly "m is non-zero" *)
+Lemma legal_of_nums_01 ms :
+  Forall (fun m => m == 0 \/ m == 1) ms ->
+  legal_of_nums ms = map (fun m => negb (Qeq_bool m 0)) ms.
+Proof.
+  induction 1 as [|m ms [H0|H1] _ IH]; cbn; auto; f_equal; auto.
+  - assert (legal_of_num m = false) as ->.
+    { destruct (legal_of_num m) eqn:E; auto. apply legal_of_num_spec in E. lra. }
+    assert (Qeq_bool m 0 = true) as -> by (apply Qeq_bool_iff; auto). reflexivity.
+  - assert (legal_of_num m = true) as -> by (apply legal_of_num_spec; auto).
+    assert (Qeq_bool m 0 = false) as ->.
+    { destruct (Qeq_bool m 0) eqn:E; auto. apply Qeq_bool_iff in E. lra. }
+    reflexivity.
+Qed.
+
+(* ... but a "truthy" entry other than 1 (e.g. 2) is treated as illegal by the 1 - m inversion *)
+Lemma legal_of_num_truthy_refuted : exists m, ~ m == 0 /\ legal_of_num m = false.
+Proof. exists 2. split; [lra | reflexivity]. Qed.
+
+(* a batch is processed row by row: the action of a row does not depend on the other rows of the batch *)
+Lemma dqn_batch_rowwise eps rows1 rows2 :
+  dqn_get_action eps (rows1 ++ rows2) = dqn_get_action eps rows1 ++ dqn_get_action eps rows2.
+Proof. unfold dqn_get_action. apply map_app. Qed.
+Lemma dqn_batch_nth eps rows i r :
+  nth_error rows i = Some r ->
+  nth_error (dqn_get_action eps rows) i = Some (dqn_row (dq_q r) (dq_u r) (dq_coin r) eps (dq_legal r)).
+Proof. intro H. unfold dqn_get_action. rewrite nth_error_map, H. reflexivity. Qed.
+Lemma greedy_batch_nth rows i v m :
+  nth_error rows i = Some (v, m) -> nth_error (greedy_rows rows) i = Some (greedy_row v m).
+Proof. intro H. unfold greedy_rows. rewrite nth_error_map, H. reflexivity. Qed.
+Lemma ddpg_batch_nth training a box rows i y n :
+  nth_error rows i = Some (y, n) ->
+  nth_error (ddpg_get_action training a box rows) i = Some (ddpg_row training a box y n).
+Proof. intro H. unfold ddpg_get_action. rewrite nth_error_map, H. reflexivity. Qed.
+
+(* every agent of a multi-agent learner stays inside ITS OWN box (training: clamp; evaluation: rescale) *)
+Lemma maddpg_all_agents_in_box training a agents :
+  Forall (fun '(box, y, n) => Forall wf_bounds box /\ length y = length box /\ length n = length box /\
+            (training = false -> squashing a = true /\ finite_box box = true /\ forall x, In x y -> in_act_range a x)) agents ->
+  Forall2 (fun '(box, _, _) out => in_box box out) agents (maddpg_cont_all training a agents).
+Proof.
+  unfold maddpg_cont_all. induction 1 as [|[[box y] n] rest (W & Ly & Ln & He) _ IH]; cbn; constructor; auto.
+  destruct training.
+  - apply maddpg_cont_train_in_box; auto.
+  - destruct (He eq_refl) as (S & F & R). apply maddpg_cont_eval_in_box; auto.
+Qed.
